@@ -468,6 +468,167 @@ def trxcon_oracle(case):
             {"actions": [x[:70] for x in case["actions"]]})
 
 
+# ------------------------------------------------- coverage-guided campaigns (atheris / libFuzzer)
+def atheris_campaigns(ctx, rec):
+    """atheris (python3-vt) on the byte-level targets of checks/c14_targets.py: each target with an empty corpus and
+    with a small seed corpus, libFuzzer -seed derived from the run seed.  A Python exception inside a target is a
+    crash; the saved input is replayed in-process to obtain the signature."""
+    import glob
+    import os
+    import re
+    import shutil
+    import subprocess
+    from concurrent.futures import ThreadPoolExecutor
+    from checks import c14_targets
+    from harness.core import VERIF, Failure
+    py = shutil.which("python3-vt") or "/opt/veriftools/pyvenv/bin/python"
+    if not os.path.exists(py):
+        raise HarnessError("python3-vt (atheris) not found")
+    budget = {"quick": {"parse": 40000, "capture": 15000, "ctrl": 2500, "data": 2500},
+              "thorough": {"parse": 3000000, "capture": 800000, "ctrl": 150000, "data": 150000}}[ctx.tier]
+    base = os.path.join(ctx.build, "atheris")
+    shutil.rmtree(base, ignore_errors=True)
+    jobs = []
+    for mode in sorted(c14_targets.TARGETS):
+        for flavour in ("empty", "seeded"):
+            for shard in range(1 if ctx.tier == "quick" else 2):
+                d = os.path.join(base, "%s-%s-%d" % (mode, flavour, shard))
+                corp, art = os.path.join(d, "corpus"), os.path.join(d, "artifacts") + os.sep
+                os.makedirs(corp)
+                os.makedirs(art)
+                if flavour == "seeded":
+                    for k, blob in enumerate(c14_targets.seed_corpus(mode)):
+                        with open(os.path.join(corp, "seed%d" % k), "wb") as f:
+                            f.write(blob)
+                cmd = [py, os.path.join(VERIF, "harness", "fuzz_c14.py"), mode, corp, "-runs=%d" % budget[mode],
+                       "-seed=%d" % (ctx.seed * 100 + shard + 1), "-artifact_prefix=" + art, "-print_final_stats=1",
+                       "-max_len=%d" % (1200 if mode != "capture" else 2000), "-timeout=60"]
+                jobs.append((mode, flavour, d, cmd))
+
+    def run(job):
+        mode, flavour, d, cmd = job
+        env = dict(os.environ, PYTHONHASHSEED="0", PYTHONDONTWRITEBYTECODE="1")
+        r = subprocess.run(cmd, capture_output=True, text=True, env=env, cwd=d)
+        return job, r
+    with ThreadPoolExecutor(16) as ex:
+        results = list(ex.map(run, jobs))
+    fails, sigs = [], set()
+    for (mode, flavour, d, cmd), r in results:
+        m = re.search(r"stat::number_of_executed_units:\s+(\d+)", r.stderr)
+        n = int(m.group(1)) if m else 0
+        corp = glob.glob(os.path.join(d, "corpus", "*"))
+        rec.bulk(n, len(corp), {"atheris:%s:%s:execs" % (mode, flavour): n, "atheris:%s:%s:corpus" % (mode, flavour): len(corp)},
+                 [{"mode": mode, "corpus_unit": open(c, "rb").read()[:60]} for c in sorted(corp)[:1]])
+        arts = glob.glob(os.path.join(d, "artifacts", "crash-*")) + glob.glob(os.path.join(d, "artifacts", "timeout-*"))
+        if r.returncode != 0 and not arts and n == 0:
+            raise HarnessError("atheris campaign %s/%s failed to run: %s" % (mode, flavour, r.stderr[-400:]))
+        for a_ in arts:
+            data = open(a_, "rb").read()
+            case = {"mode": mode, "data": data}
+            try:
+                fuzz_replay(case)
+                sig, msg = "c14:atheris:%s:crash-not-reproduced-in-process" % mode, r.stderr[-600:]
+            except Violation as v:
+                sig, msg = v.sig, v.msg
+            if sig not in sigs:
+                sigs.add(sig)
+                fails.append(Failure("atheris_campaigns", case, sig, msg))
+    return fails
+
+
+def libfuzzer_trxif(ctx, rec):
+    """libFuzzer (clang -fsanitize=fuzzer,address,undefined) on the trxcon transceiver interface: the entry function in
+    c/drv_trxif.c rebuilds the interface for every input, decodes the bytes into {command, CTRL datagram, DATA datagram,
+    timer} actions and traps if an illegal burst reaches the scheduler; sanitizer reports are failures."""
+    import glob
+    import os
+    import re
+    import shutil
+    import subprocess
+    from concurrent.futures import ThreadPoolExecutor
+    from harness.core import Failure
+    exe = trxif.build(ctx, fuzz=True)
+    runs = {"quick": 60000, "thorough": 2500000}[ctx.tier]
+    nsh = {"quick": 2, "thorough": 8}[ctx.tier]
+    base = os.path.join(ctx.build, "libfuzzer")
+    shutil.rmtree(base, ignore_errors=True)
+
+    def rec_(op, payload):
+        return bytes([op, len(payload) & 255, len(payload) >> 8]) + payload
+    seeds = [rec_(0, bytes([0])) + rec_(1, b"RSP POWEROFF 0\0") + rec_(1, b"RSP ECHO 0\0"),
+             rec_(0, bytes([3, 10, 0])) + rec_(1, b"RSP MEASURE 0 937000 -60\0"),
+             rec_(0, bytes([7, 3, 5])) + rec_(1, b"RSP SETFH 0 5 0 936000 891000\0"),
+             rec_(2, ref_trxd.encode({"cls": "rx", "ver": 0, "fn": 1000, "tn": 3, "rssi": -60, "toa256": -5, "soft": [100] * 148}, True)),
+             rec_(2, ref_trxd.encode({"cls": "rx", "ver": 0, "fn": 2715647, "tn": 7, "rssi": -120, "toa256": 32767, "soft": [-127] * 444}, False)),
+             rec_(0, bytes([1])) + rec_(3, b"") + rec_(3, b"") + rec_(3, b"") + rec_(3, b"")]
+    jobs = []
+    for sh_ in range(nsh):
+        d = os.path.join(base, "shard%d" % sh_)
+        corp, art = os.path.join(d, "corpus"), os.path.join(d, "artifacts") + os.sep
+        os.makedirs(corp)
+        os.makedirs(art)
+        if sh_ % 2:
+            for k, blob in enumerate(seeds):
+                with open(os.path.join(corp, "seed%d" % k), "wb") as f:
+                    f.write(blob)
+        jobs.append((d, [exe, corp, "-runs=%d" % runs, "-seed=%d" % (ctx.seed * 100 + sh_ + 1), "-artifact_prefix=" + art,
+                         "-print_final_stats=1", "-max_len=3000", "-timeout=30"]))
+
+    def run(job):
+        d, cmd = job
+        env = dict(os.environ)
+        env.update(cbuild.SAN_ENV)
+        env["ASAN_OPTIONS"] += ":quarantine_size_mb=16"
+        return job, subprocess.run(cmd, capture_output=True, text=True, env=env, cwd=d)
+    with ThreadPoolExecutor(16) as ex:
+        results = list(ex.map(run, jobs))
+    fails, sigs = [], set()
+    for (d, cmd), r in results:
+        m = re.search(r"stat::number_of_executed_units:\s+(\d+)", r.stderr)
+        n = int(m.group(1)) if m else 0
+        corp = glob.glob(os.path.join(d, "corpus", "*"))
+        rec.bulk(n, len(corp), {"libfuzzer:execs": n, "libfuzzer:corpus-units": len(corp)},
+                 [{"corpus_unit": open(c, "rb").read()[:60]} for c in sorted(corp)[:1]])
+        arts = [a_ for a_ in glob.glob(os.path.join(d, "artifacts", "*")) if os.path.basename(a_).split("-")[0] in ("crash", "timeout", "oom", "leak")]
+        if r.returncode != 0 and not arts and n == 0:
+            raise HarnessError("libFuzzer campaign failed to run: %s" % r.stderr[-400:])
+        for a_ in arts:
+            c = cbuild.DriverCrash(r.returncode, r.stderr, [])
+            sig = "c14:trxcon-fuzz:" + c.signature()
+            if sig not in sigs:
+                sigs.add(sig)
+                fails.append(Failure("libfuzzer_trxif", {"data": open(a_, "rb").read()}, sig, r.stderr[-800:]))
+    return fails
+
+
+def libfuzzer_replay(case):
+    import os
+    import subprocess
+    ctx = Ctx("C14", "quick", 1)
+    exe = trxif.build(ctx, fuzz=True)
+    p = os.path.join(ctx.build, "replay-input.bin")
+    with open(p, "wb") as f:
+        f.write(bytes(case["data"]))
+    env = dict(os.environ)
+    env.update(cbuild.SAN_ENV)
+    r = subprocess.run([exe, p], capture_output=True, text=True, env=env)
+    if r.returncode != 0:
+        raise Violation("c14:trxcon-fuzz:" + cbuild.DriverCrash(r.returncode, r.stderr, []).signature(), r.stderr[-600:])
+
+
+def fuzz_replay(case):
+    from checks import c14_targets
+    try:
+        c14_targets.TARGETS[case["mode"]](bytes(case["data"]))
+    except AssertionError as e:
+        raise Violation("c14:fuzz:%s:%s" % (case["mode"], str(e)[:60]), str(e))
+    except Exception as e:
+        sig = repo_frame_sig(e)
+        if sig is None:
+            raise
+        raise Violation("c14:fuzz:%s:exception-escapes:%s" % (case["mode"], sig), "%r" % (e,))
+
+
 SUBS = [
     Sub("raw_data_datagrams", strategy=st.fixed_dictionaries({"data": datagram_st}), oracle=raw_data_oracle,
         examples={"quick": 3000, "thorough": 100000}),
@@ -479,4 +640,8 @@ SUBS = [
     Sub("sessions", strategy=session_case(), oracle=session_oracle, examples={"quick": 500, "thorough": 20000}),
     Sub("trxcon_callbacks", strategy=st.fixed_dictionaries({"actions": st.lists(trxcon_action(), min_size=1, max_size=12)}),
         oracle=trxcon_oracle, examples={"quick": 1500, "thorough": 60000}, prepare=prepare),
+    Sub("atheris_campaigns", fn=atheris_campaigns),
+    Sub("libfuzzer_trxif", fn=libfuzzer_trxif),
 ]
+SUBS[-2].replay = fuzz_replay
+SUBS[-1].replay = libfuzzer_replay
